@@ -175,7 +175,36 @@ def _exception_structure() -> dict:
     return {"handled": want, "raised_by_unpack": raised}
 
 
-def read_layout() -> tuple[Layout, dict]:
+def _port_tie() -> int:
+    """the request goes to the port the responder of every context listens on: both sides must name the same constant"""
+    ct = ast.parse((core.REPO / "qmi/core/context.py").read_text())
+    ping = _find_def(ct, ["ping_qmi_contexts"])
+    dests = [ast.unparse(a.value) for a in ast.walk(ping) if isinstance(a, ast.Assign)
+             and any(isinstance(t, ast.Name) and t.id == "address_out" for t in a.targets)]
+    sends = [ast.unparse(c.args[1]) for c in ast.walk(ping) if isinstance(c, ast.Call) and isinstance(c.func, ast.Attribute)
+             and c.func.attr == "sendto" and len(c.args) == 2]
+    start = _find_def(ct, ["QMI_Context", "start"])
+    binds = [ast.unparse(c.args[0]) for c in ast.walk(start) if isinstance(c, ast.Call) and isinstance(c.func, ast.Attribute)
+             and c.func.attr == "start_udp_responder" and len(c.args) == 1]
+    if dests != ["('<broadcast>', QMI_Context.DEFAULT_UDP_RESPONDER_PORT)"] or sends != ["address_out"] \
+            or binds != ["self.DEFAULT_UDP_RESPONDER_PORT"]:
+        raise ValueError(f"request destination / responder port not understood: dest={dests} sendto={sends} responder={binds}")
+    import qmi.core.context as C
+    port = C.QMI_Context.DEFAULT_UDP_RESPONDER_PORT
+    if not isinstance(port, int) or not 0 < port < 65536:
+        raise ValueError(f"DEFAULT_UDP_RESPONDER_PORT = {port!r}")
+    return port
+
+
+def _lenient(fn, default):
+    """the correspondence / search must still run (and look for a failing input) when a source tie no longer parses"""
+    try:
+        return fn()
+    except Exception:
+        return default
+
+
+def read_layout(strict: bool = False) -> tuple[Layout, dict]:
     import ctypes
     import qmi.core.udp_responder_packets as P
     H, RQ, RS, KL, DS = (P.QMI_UdpResponderPacketHeader, P.QMI_UdpResponderContextInfoRequestPacket,
@@ -215,7 +244,9 @@ def read_layout() -> tuple[Layout, dict]:
         enumTags=[m.value for m in E], lookup=lookup, headerSizeof=hsz,
         responderRecvMax=_recvfrom_const(core.REPO / "qmi/core/messaging.py", ["_UdpResponder", "_handle_read"]),
         clientRecvMax=_recvfrom_const(core.REPO / "qmi/core/context.py", ["ping_qmi_contexts"]),
-        maxObjectNameLen=_object_name_rule(),
+        maxObjectNameLen=_object_name_rule() if strict else _lenient(_object_name_rule, 63),
+        responderPort=_port_tie() if strict else _lenient(_port_tie, 35999),
+        defaultTimeoutTicks=default_timeout_ticks() if strict else _lenient(default_timeout_ticks, 103),
     )
     for v in d["enumTags"]:
         if not isinstance(v, int) or v < 0:
@@ -238,6 +269,10 @@ def render_gen(lay: Layout, tables: dict) -> str:
     L.append(f"def clientRecvMax : Nat := {lay.clientRecvMax}")
     L.append("/-- `is_valid_object_name`: at most this many characters, all of `[-_a-zA-Z0-9()]` (pattern checked by the translator) -/")
     L.append(f"def maxObjectNameLen : Nat := {lay.maxObjectNameLen}")
+    L.append("/-- `QMI_Context.DEFAULT_UDP_RESPONDER_PORT`: where `start()` puts the responder and where `ping_qmi_contexts` broadcasts to -/")
+    L.append(f"def responderPort : Nat := {lay.responderPort}")
+    L.append("/-- default `timeout` of `ping_qmi_contexts` in clock ticks of 1/1024 s, rounded up (first tick at which the loop stops) -/")
+    L.append(f"def defaultTimeoutTicks : Nat := {lay.defaultTimeoutTicks}")
     L.append("")
     L.append("/-! field tables as read (name, offset, size) — for the record -/")
     for name, tab in tables.items():
@@ -824,7 +859,8 @@ def run_client_impl(lay: Layout, c: dict):
     outs = []
     sent = socks[0].sent if socks else []
     info = {"sent": sent, "delivered": list(delivered), "result": result, "exc": type(exc).__name__ if exc else None,
-            "closed": bool(socks) and socks[0].closed, "bcast_to": sent[0][1] if sent else None}
+            "closed": bool(socks) and socks[0].closed, "bcast_to": sent[0][1] if sent else None,
+            "sockopts": [tuple(o) for o in socks[0].opts] if socks else []}
     if not sent:
         outs.append("exc:" + info["exc"] if exc is not None else "nothing-sent")
         return lines, outs, info
@@ -847,6 +883,247 @@ def run_client_impl(lay: Layout, c: dict):
     return lines, outs, info
 
 
+# ---- the collection window: the same code under a scripted clock and selector -------------------------------------
+# timed = {"mode":"ping"|"discover","self","wg_cfg","wgf","cnf","rid","now","t0":ticks,"timeout":ticks,
+#          "turns":[{"t":ticks} | {"t":ticks,"addr":k,"data":hex}]}      1 tick = 1/1024 s (exact in binary floating point)
+
+TICKS = 1024.0
+
+
+def default_timeout_ticks() -> int:
+    import inspect
+    import math
+    import qmi.core.context as C
+    d = inspect.signature(C.ping_qmi_contexts).parameters["timeout"].default
+    if not isinstance(d, (int, float)) or d < 0:
+        raise ValueError(f"ping_qmi_contexts: default timeout {d!r} not understood")
+    return math.ceil(d * TICKS)
+
+
+def timed_lines(c: dict) -> list:
+    ts = ",".join(f"{u['t']}:{u['addr']}:{u['data']}" if "data" in u else f"{u['t']}:-" for u in c["turns"]) or "-"
+    if c["mode"] == "ping":
+        return [f"pingloop {c['rid']} {c['t0'] + c['timeout']} {ts}"]
+    return [f"disct {shex(c['self'])} {c['rid']} {c['t0']} {c['timeout']} {ts}"]
+
+
+def run_timed_impl(lay: Layout, c: dict):
+    import selectors
+    import qmi.core.context as C
+    st = {"i": -1, "first": True, "bad_select": None, "overrun": False, "reads": 0}
+    socks = []
+
+    def monotonic():
+        if st["first"]:
+            st["first"] = False
+            return c["t0"] / TICKS
+        st["i"] += 1
+        if st["i"] >= len(c["turns"]):
+            st["overrun"] = True
+            raise _Budget("the loop asked for the time again after every scripted turn, including expired ones")
+        return c["turns"][st["i"]]["t"] / TICKS
+
+    class Sel:
+        def __enter__(self):
+            return self
+
+        def __exit__(self, *a):
+            return False
+
+        def close(self):
+            pass
+
+        def register(self, sock, events, data=None):
+            self.key = selectors.SelectorKey(sock, sock.fileno(), events, data)
+            self.sock = sock
+            return self.key
+
+        def select(self, timeout=None):
+            u = c["turns"][st["i"]] if 0 <= st["i"] < len(c["turns"]) else None
+            remaining = (c["t0"] + c["timeout"] - (u["t"] if u else c["t0"])) / TICKS
+            if timeout is None or not (0 < timeout <= remaining + 1e-9):
+                st["bad_select"] = (timeout, remaining)
+            if u is not None and "data" in u and not u.get("_taken"):
+                u["_taken"] = True
+                self.sock.queue.append((unhx(u["data"]), addr_of(u["addr"])))
+                return [(self.key, self.key.events)]
+            return []
+
+    class TSock(FakeDgramSocket):
+        def recvfrom(self, n):
+            st["reads"] += 1
+            return super().recvfrom(n)
+
+    def make_socket(*a, **kw):
+        sk = TSock(budget=100000)
+        socks.append(sk)
+        return sk
+
+    for u in c["turns"]:
+        u.pop("_taken", None)
+    wgf = c["wg_cfg"] if c["wgf"] is None else c["wgf"]
+    me = types.SimpleNamespace(name=c["self"], _config=types.SimpleNamespace(workgroup=c["wg_cfg"]))
+    res, exc = None, None
+    with quiet(), patched(C, socket=_Shim(C.socket, socket=make_socket), selectors=_Shim(C.selectors, DefaultSelector=Sel),
+                          time=_Shim(C.time, monotonic=monotonic, time=lambda: struct.unpack("<d", unhx(c["now"]))[0]),
+                          random=_Shim(C.random, randint=lambda a, b: c["rid"])):
+        try:
+            if c["mode"] == "ping":
+                res = C.ping_qmi_contexts(wgf, c["cnf"], timeout=c["timeout"] / TICKS)
+            else:
+                res = C.QMI_Context.discover_peer_contexts(me, c["wgf"], c["cnf"])
+        except _Budget as e:
+            exc = e
+        except Exception as e:
+            exc = e
+    for u in c["turns"]:
+        u.pop("_taken", None)
+    info = {"exc": type(exc).__name__ if exc is not None else None, "overrun": st["overrun"], "bad_select": st["bad_select"],
+            "reads": st["reads"], "turns_used": st["i"] + 1, "sock": socks[0] if socks else None, "result": res}
+    if exc is not None:
+        out = "overrun" if st["overrun"] else "exc:" + info["exc"]
+    elif c["mode"] == "ping":
+        info["accepted"] = [addr_index(r.incoming_address) for r in res]
+        out = "ok " + ",".join(info["accepted"])
+    else:
+        def canon(ent):
+            nm, ap = ent
+            host, _, port = ap.rpartition(":")
+            k = next((str(u["addr"]) for u in c["turns"] if "data" in u and addr_of(u["addr"])[0] == host), "?")
+            return f"{shex(nm)}@{k}:{port}"
+        out = "ok " + ";".join(canon(e) for e in res)
+    return timed_lines(c), [out], info
+
+
+def oracle_timed(lay: Layout, c: dict, info):
+    """every answer to this call that arrives within the window is reported, nothing that arrives later is, and the call ends"""
+    deadline = c["t0"] + c["timeout"]
+    if info["overrun"]:
+        return ("window:loop-runs-past-the-deadline", f"deadline tick {deadline}, turns {[u['t'] for u in c['turns']][-6:]}", 0)
+    if info["bad_select"] is not None:
+        return ("window:select-timeout-is-not-the-remaining-time", f"select({info['bad_select'][0]!r}) with {info['bad_select'][1]} s remaining", 0)
+    inwin, n_in = [], 0
+    for u in c["turns"]:
+        if u["t"] >= deadline:
+            break
+        n_in += 1
+        if "data" in u:
+            inwin.append(u)
+    if info["reads"] > len(inwin):
+        return ("window:datagram-read-at-or-after-the-deadline", f"{info['reads']} reads, {len(inwin)} datagrams within the window", 0)
+    exp, undec = [], False
+    for u in inwin:
+        b = unhx(u["data"])[:lay.clientRecvMax]
+        if len(b) == lay.resp_size and int.from_bytes(b[:lay.magicSz], "little") == lay.magic \
+                and int.from_bytes(b[lay.magicSz:lay.magicSz + lay.tagSz], "little") == lay.tagInfoResponse:
+            r = o_split(lay.resp_sizes, b)
+            if int.from_bytes(r[4], "little") == c["rid"]:
+                try:
+                    nm = cval(r[7]).decode("utf-8")
+                except UnicodeDecodeError:
+                    undec = True
+                    nm = None
+                exp.append((str(u["addr"]), nm, sint(r[9])))
+    if c["mode"] == "ping":
+        if info["exc"] is not None:
+            return ("window:raised", info["exc"], 0)
+        if info["accepted"] != [e[0] for e in exp]:
+            missing = [e[0] for e in exp if e[0] not in info["accepted"]]
+            return ("window:answer-within-the-window-not-reported" if missing else "window:reported-what-did-not-arrive-in-time-or-is-not-an-answer",
+                    f"accepted {info['accepted']}, expected {[e[0] for e in exp]}", 0)
+        return None
+    if undec:
+        return None
+    if info["exc"] is not None:
+        return ("window:raised", info["exc"], 0)
+    want = [(nm, f"{addr_of(int(a))[0]}:{port}") for a, nm, port in exp if nm != c["self"]]
+    got = [tuple(e) for e in info["result"]]
+    if got != want:
+        missing = [e for e in want if e not in got]
+        return ("window:answer-within-the-window-not-reported" if missing else "window:reported-what-did-not-arrive-in-time-or-is-not-an-answer",
+                f"got {got}, want {want}", 0)
+    return None
+
+
+def gen_timed(rng, lay: Layout, dflt: int) -> dict:
+    me = gen_name(rng, "valid") or "me"
+    rid = rng.randrange(1, 2 ** 64)
+    mode = rng.choice(["ping", "ping", "discover"])
+    tmo = dflt if mode == "discover" else rng.choice([0, 1, 2, 3, 17, dflt - 1, dflt, dflt + 1, 128, 512, 1024])
+    t0 = 1024 * rng.randrange(1000, 5000) + rng.randrange(1024)
+    c = {"mode": mode, "self": me, "wg_cfg": "grp", "wgf": rng.choice([None, "*", "g*"]), "cnf": "*", "rid": rid, "now": rand_now(rng),
+         "t0": t0, "timeout": tmo, "turns": []}
+    deadline = t0 + tmo
+    names = [me, me + "x", "peer", me.swapcase(), me[:-1] or "p"]
+
+    def answer(own=True):
+        nm = rng.choice(names).encode()[:lay.nameLen]
+        i = rid if own else rng.choice([rid ^ 1, (rid + 1) % 2 ** 64, rng.randrange(2 ** 64)])
+        return o_response(lay, rng.randrange(1, 2 ** 64), unhx(rand_now(rng)), i, unhx(c["now"]), 5, nm, b"grp", rng.randrange(1024, 65536))
+
+    def dgram():
+        r = rng.random()
+        if r < 0.45:
+            return answer(True)
+        if r < 0.6:
+            return answer(False)
+        if r < 0.7:
+            return answer(True)[:rng.randrange(1, lay.resp_size)]
+        return gen_junk(rng, lay, answer(True))[1]
+
+    t = t0
+    style = rng.choice(["sparse", "flood", "edge", "stall"])
+    for j in range(rng.randint(0, 12) if style != "flood" else rng.randint(30, 150)):
+        if style == "flood":
+            t += rng.choice([0, 0, 1, 1, 2])
+        elif style == "edge":
+            t = rng.choice([deadline - 2, deadline - 1, deadline - 1, t, t + 1]) if j else max(t0, deadline - rng.randint(1, 3))
+            t = max(t, c["turns"][-1]["t"] if c["turns"] else t0)
+        elif style == "stall":
+            t += 0 if rng.random() < 0.7 else rng.randint(1, max(1, tmo // 3 + 1))
+        else:
+            t += rng.randint(0, max(1, tmo // 4 + 1))
+        u = {"t": t}
+        if rng.random() < (0.95 if style == "flood" else 0.7):
+            u["addr"], u["data"] = rng.randrange(4000), hx(dgram() if style != "flood" or rng.random() < 0.1 else gen_junk(rng, lay, answer(True))[1])
+        c["turns"].append(u)
+        if t >= deadline and rng.random() < 0.5:
+            break
+    last = max([u["t"] for u in c["turns"]] + [t0])
+    # the clock reaches the deadline; answers that are ready at that moment or later must not be taken
+    c["turns"].append({"t": max(last, deadline) + rng.choice([0, 0, 1, 5]), "addr": 3999, "data": hx(answer(True))})
+    for j in range(3):
+        c["turns"].append({"t": c["turns"][-1]["t"] + 1, "addr": 3990 + j, "data": hx(answer(True))})
+    return c
+
+
+def sys_timed(lay: Layout, dflt: int) -> list:
+    """fixed corpus: an answer at every tick around the deadline, for the default window and small ones; zero window; a stalled clock"""
+    out = []
+    rid, now = 0x1234567890abcdef, hx(struct.pack("<d", 1.7e9))
+    good = lambda k: hx(o_response(lay, 9, unhx(now), rid, unhx(now), 5, b"peer%d" % k, b"grp", 1000 + k))
+    for mode, tmos in (("ping", [0, 1, 2, dflt, 128]), ("discover", [dflt])):
+        for tmo in tmos:
+            t0 = 2048000
+            for off in range(-3, 4):
+                at = t0 + tmo + off
+                if at < t0:
+                    continue
+                turns = [{"t": t0, "addr": 1, "data": good(1)}] if tmo > 0 and off != -tmo else []
+                turns += [{"t": at, "addr": 2, "data": good(2)}, {"t": max(at, t0 + tmo), "addr": 3, "data": good(3)},
+                          {"t": max(at, t0 + tmo) + 1, "addr": 4, "data": good(4)}]
+                out.append({"mode": mode, "self": "me", "wg_cfg": "grp", "wgf": "*", "cnf": "*", "rid": rid, "now": now,
+                            "t0": t0, "timeout": tmo, "turns": turns})
+    t0 = 3072000
+    out.append({"mode": "ping", "self": "me", "wg_cfg": "grp", "wgf": "*", "cnf": "*", "rid": rid, "now": now, "t0": t0, "timeout": 5,
+                "turns": [{"t": t0 + (j // 40), "addr": j, "data": good(j) if j % 7 == 0 else hx(bytes([j % 256]) * (j % 200))} for j in range(240)]
+                         + [{"t": t0 + 6, "addr": 3000, "data": good(0)}]})
+    out.append({"mode": "discover", "self": "me", "wg_cfg": "grp", "wgf": None, "cnf": "*", "rid": rid, "now": now, "t0": t0, "timeout": dflt,
+                "turns": [{"t": t0}, {"t": t0}, {"t": t0 + 1}, {"t": t0 + dflt - 1, "addr": 7, "data": good(7)}, {"t": t0 + dflt - 1},
+                          {"t": t0 + dflt, "addr": 8, "data": good(8)}, {"t": t0 + dflt + 1, "addr": 9, "data": good(9)}]})
+    return out
+
+
 def oracle_client(lay: Layout, c: dict, info) -> tuple | None:
     """`reports only answers to its own request and never the asking context itself` (+ what it asks is what it was told to)"""
     import fnmatch
@@ -862,6 +1139,12 @@ def oracle_client(lay: Layout, c: dict, info) -> tuple | None:
         return ("client:request-carries-wrong-filters", f"{f[4]!r} {f[5]!r}", 0)
     if len(info["sent"]) != 1:
         return ("client:more-than-one-request", str(len(info["sent"])), 0)
+    import qmi.core.context as C
+    import socket as _so
+    if tuple(info["bcast_to"]) != ("<broadcast>", C.QMI_Context.DEFAULT_UDP_RESPONDER_PORT):
+        return ("client:request-not-broadcast-to-the-responder-port", f"sent to {info['bcast_to']}", 0)
+    if (_so.SOL_SOCKET, _so.SO_BROADCAST, 1) not in info["sockopts"]:
+        return ("client:socket-not-enabled-for-broadcast", f"{info['sockopts']}", 0)
     own_id = int.from_bytes(f[2], "little")
     expected, undec = [], False
     for b, a in info["delivered"]:
@@ -916,6 +1199,7 @@ def oracle_client(lay: Layout, c: dict, info) -> tuple | None:
 # ---------------------------------------------------------------------------
 
 VALID_CH = "abcABC019-_()"
+NEWLINE_NAME_RATE = 0.04      # "abc\n" passes is_valid_object_name
 GLOB_CH = "*?[]!-^\\"
 WIDE_CH = ["é", "ß", "Ω", "€", "你", "😀", "\x7f", "\n", " ", "Z", "z", "a", "b"]
 
@@ -924,7 +1208,7 @@ def gen_name(rng, kind=None) -> str:
     """a context / workgroup name"""
     k = kind or rng.choices(["valid", "short", "globby", "wide", "long"], [45, 15, 15, 15, 10])[0]
     if k == "valid":
-        return "".join(rng.choice(VALID_CH) for _ in range(rng.randint(1, 9)))
+        return "".join(rng.choice(VALID_CH) for _ in range(rng.randint(1, 9))) + ("\n" if rng.random() < NEWLINE_NAME_RATE else "")
     if k == "short":
         return "".join(rng.choice("abc") for _ in range(rng.randint(0, 3)))
     if k == "globby":
@@ -1274,6 +1558,14 @@ def sys_sessions(rng, lay: Layout, deep: bool) -> list:
               "tag": "workgroup-too-long"})
     S.append({**base, "wg": "é" * (lay.wgLen // 2) + "a", "dgrams": [dg(o_request(lay, 5, unhx(ts0), b"*", b"*"))], "tag": "workgroup-too-long"})
     S.append({**base, "wg": "ab\0cd", "dgrams": [dg(o_request(lay, 5, unhx(ts0), b"ab*", b"*"))], "tag": "workgroup-nul"})
+    # 9. a context name that ends in a newline is a valid object name (`$` of is_valid_object_name): it is matched and
+    #    echoed like any other character; related names (prefix, suffix, case) must not be confused
+    for nm in ("ctxA\n", "ctxA", "ctxa", "ctxAB", "ctx"):
+        flts = ["ctxA", "ctxA?", "ctxA\n", "ctxA*", "ctxA[\n]", "*\n", "ctx?", "CTXA", "ctxA[!\n]", "?txA", "ctxA\n*", "*"]
+        S.append({**base, "name": nm, "dgrams": [dg(o_request(lay, 7, unhx(ts0), b"*", f.encode())) for f in flts], "tag": "related-names"})
+        S.append({**base, "wg": nm, "dgrams": [dg(o_request(lay, 7, unhx(ts0), f.encode(), b"*")) for f in flts], "tag": "related-names"})
+    # 10. the same datagram twice, a request between two copies of junk, responder reused for a long history
+    S.append({**base, "dgrams": [dg(good), dg(good), dg(good[:-1]), dg(good), dg(good[:-1]), dg(good, k=9), dg(good, k=9)], "tag": "repeats"})
     # 8b. everything one bit away from a kill request, and the kill header on datagrams of other sizes: only the ones that
     #     still are well-formed kill requests (bit in id / timestamp) may kill; after each, an intact request
     kill = o_kill(lay, 0x0102030405060708, unhx(ts0))
@@ -1285,6 +1577,25 @@ def sys_sessions(rng, lay: Layout, deep: bool) -> list:
     # 8. kill request (well-formed: acted upon; malformed: junk), nothing after it
     S.append({**base, "dgrams": [dg(o_kill(lay, 1, unhx(ts0))[:-1]), dg(o_kill(lay, 1, unhx(ts0)) + b"\0"), dg(good), dg(o_kill(lay, 1, unhx(ts0)))], "tag": "kill"})
     return S
+
+
+def sys_clients(lay: Layout) -> list:
+    """fixed corpus for the asking side: related names, the same answer twice, answers to a previous call, own name variants"""
+    out = []
+    now = hx(struct.pack("<d", 1.7e9))
+    rid = 0x0102030405060708
+    for me in ("node1", "node1\n", "n"):
+        peers = [me, me[:-1] or "x", me + "0", me.upper(), me.swapcase(), me + "\n", me.rstrip("\n"), " " + me, me, "other"]
+        resp = [{"name": nm, "wg": "grp", "pid": 10 + j, "port": 2000 + j, "addr": 100 + j, "rid": 50 + j} for j, nm in enumerate(peers) if nm]
+        out.append({"self": me, "wg_cfg": "grp", "wgf": None, "cnf": "*", "rid": rid, "now": now, "dgrams": [], "responders": resp,
+                    "real_ctx": False, "answers_at": 0})
+        out.append({"self": me, "wg_cfg": "grp", "wgf": "g*", "cnf": me.rstrip("\n") + "*", "rid": rid, "now": now, "dgrams": [], "responders": resp,
+                    "real_ctx": False, "answers_at": 0})
+    a = lambda i, nm, k: {"addr": k, "data": hx(o_response(lay, 9, unhx(now), i, unhx(now), 5, nm, b"grp", 4000 + k))}
+    out.append({"self": "me", "wg_cfg": "grp", "wgf": "*", "cnf": "*", "rid": rid, "now": now, "responders": [], "real_ctx": False,
+                "dgrams": [a(rid, b"p1", 1), a(rid, b"p1", 1), a(rid - 1, b"p2", 2), a(rid, b"me", 3), a(rid, b"ME", 4), a(rid, b"me\n", 5),
+                           a(rid + 1, b"p3", 6), a(rid, b"p1", 7), a(0, b"p4", 8), a(rid, b"", 9)], "answers_at": 0})
+    return out
 
 
 def sys_glob_pairs(deep: bool):
@@ -1358,8 +1669,13 @@ class C18(Prop):
         "`fnmatch.fnmatchcase` and `re`: re-implemented as `globMatch` (incl. the chunk processing of `fnmatch.translate`), "
         "diffed against CPython on generated and exhaustively enumerated bracket expressions",
         "`bytes.decode()` / `str.encode()` (strict UTF-8): modelled by `utf8Decode`/`utf8Encode`, diffed on generated byte strings",
-        "UDP itself, `recvfrom` truncation to the buffer size, the selector loop and the 0.1 s collection window of `ping_qmi_contexts` "
-        "(a fake socket, selector and clock stand in); `random.randint`, `time.time`, `os.getpid`, `os._exit` are inputs/effects of the model",
+        "UDP itself, `recvfrom` truncation to the buffer size, `selectors` and `time.monotonic` (a fake socket, a scripted selector and "
+        "clock stand in; the receive loop of `ping_qmi_contexts` itself is modelled as `pingLoop` over clock readings and diffed turn by "
+        "turn, incl. the deadline tick); that the clock advances between two loop turns is an assumption of `ping_turns_bounded`; "
+        "`random.randint`, `time.time`, `os.getpid`, `os._exit` are inputs/effects of the model",
+        "which exceptions can leave `_handle_read`: proved for the model (`escape_classes`), tied to the source by the translator "
+        "(try/except structure of the responder methods, `raise` statements of `unpack_qmi_udp_packet`, exception hierarchy) and by an "
+        "oracle clause that flags any other class on every run",
         "QMI_Context.__init__ name checks (`is_valid_object_name`, workgroup fits the packet field, no NUL): modelled by "
         "`admitContext` (length limit and character class read from util.py by the translator), diffed against the real constructor",
         "c_double fields are carried as 8 opaque bytes (float → float copies are bit-exact on this platform; checked for every bit)",
@@ -1371,7 +1687,7 @@ class C18(Prop):
 
     # -- translator --------------------------------------------------------
     def translate(self, ctx: Ctx):
-        lay, tables = read_layout()
+        lay, tables = read_layout(strict=True)
         _exception_structure()
         core.write_if_changed(GEN_FILE, render_gen(lay, tables))
         return [GEN_FILE]
@@ -1513,6 +1829,9 @@ class C18(Prop):
         # (d) the asking side
         from qmi.core.util import is_valid_object_name
         cb: list = []
+        for c in sys_clients(lay):
+            self._do_client(lay, res, c, cb)
+            res.count("client_fixed_corpus")
         for i in range(ctx.scale(5000, 60000)):
             c = gen_client(rng, lay)
             if i % 100 < 3 and is_valid_object_name(c["self"]):      # a real QMI_Context (leaves a daemon thread behind: only a few)
@@ -1525,6 +1844,17 @@ class C18(Prop):
                 self._flush(res, cb, "Discovery.discover vs discover_peer_contexts")
         self._flush(res, cb, "Discovery.discover vs discover_peer_contexts")
         ctx.log("discovery calls done")
+
+        # (d2) the collection window: scripted clock and selector
+        dflt = lay.defaultTimeoutTicks
+        tb: list = []
+        timed = sys_timed(lay, dflt) + [gen_timed(rng, lay, dflt) for _ in range(ctx.scale(1500, 15000))]
+        for i, c in enumerate(timed):
+            self._do_timed(lay, res, c, tb)
+            if len(tb) >= 1500:
+                self._flush(res, tb, "Discovery.pingLoop vs ping_qmi_contexts")
+        self._flush(res, tb, "Discovery.pingLoop vs ping_qmi_contexts")
+        ctx.log("collection-window runs done")
 
         # (e) which contexts can exist: QMI_Context.__init__ against Discovery.admitContext, and "created => reportable"
         self._admission(ctx, lay, res)
@@ -1565,6 +1895,34 @@ class C18(Prop):
             c2 = self._shrink_client(lay, c, v[0])
             res.failures.append(Failure(v[0], f"discover_peer_contexts(self={c2['self']!r}, filters={c2['wgf']!r},{c2['cnf']!r}): {v[0]} — {v[1]}",
                                         {"kind": "client", "client": c2}))
+
+    def _do_timed(self, lay, res, c, tb):
+        lines, outs, info = run_timed_impl(lay, c)
+        tb.append((lines, outs, {"kind": "timed", "timed": c}))
+        res.note_case(("timed", c["mode"], c["t0"], c["timeout"], tuple((u["t"], u.get("data", "")) for u in c["turns"])))
+        res.count("window_" + c["mode"])
+        res.count("window_turns", len(c["turns"]))
+        res.count("window_result_" + outs[0].split(" ")[0])
+        if any("data" in u and c["t0"] + c["timeout"] - 1 <= u["t"] <= c["t0"] + c["timeout"] for u in c["turns"]):
+            res.count("window_datagram_at_deadline_tick_or_the_one_before")
+        v = oracle_timed(lay, c, info)
+        if v and sum(1 for f in res.failures if f.signature == v[0]) < 2:
+            small = dict(c)
+            turns = list(c["turns"])
+            i = 0
+            while i < len(turns) and len(turns) > 1:      # greedy deletion of turns
+                cand = dict(c, turns=turns[:i] + turns[i + 1:])
+                try:
+                    v2 = oracle_timed(lay, cand, run_timed_impl(lay, cand)[2])
+                except Exception:
+                    v2 = None
+                if v2 and v2[0] == v[0]:
+                    turns = cand["turns"]
+                else:
+                    i += 1
+            small["turns"] = turns
+            res.failures.append(Failure(v[0], f"{c['mode']} window t0={c['t0']} timeout={c['timeout']} ticks, {len(turns)} turn(s): {v[0]} — {v[1]}",
+                                        {"kind": "timed", "timed": small}))
 
     def _shrink_client(self, lay, c, sig):
         def bad(t):
@@ -1650,6 +2008,11 @@ class C18(Prop):
                 res.note_case(("re", repr(c)[:200]))
                 if v:
                     res.failures.append(Failure(v[0], f"{v[0]} — {v[1]}", {"kind": "client", "client": c["client"]}))
+            elif c.get("kind") == "timed":
+                v = oracle_timed(lay, c["timed"], run_timed_impl(lay, c["timed"])[2])
+                res.note_case(("re", repr(c)[:200]))
+                if v:
+                    res.failures.append(Failure(v[0], f"{v[0]} — {v[1]}", {"kind": "timed", "timed": c["timed"]}))
             elif c.get("kind") == "admit":
                 v = oracle_admit(lay, c["name"], c["wg"], admit_impl(c["name"], c["wg"]))
                 res.note_case(("re", repr(c)[:200]))
@@ -1703,6 +2066,12 @@ class C18(Prop):
             res.note_case(("rs", i))
             if v:
                 self._fail_session(lay, res, s, v)
+        dflt = lay.defaultTimeoutTicks
+        for i, c in enumerate(sys_timed(lay, dflt) + [gen_timed(rng, lay, dflt) for _ in range(3000)]):
+            v = oracle_timed(lay, c, run_timed_impl(lay, c)[2])
+            res.note_case(("rt", i))
+            if v and sum(1 for f in res.failures if f.signature == v[0]) < 2:
+                res.failures.append(Failure(v[0], f"{v[0]} — {v[1]}", {"kind": "timed", "timed": c}))
         for i in range(3000):
             c = gen_client(rng, lay)
             v = oracle_client(lay, c, run_client_impl(lay, c)[2])
@@ -1713,7 +2082,9 @@ class C18(Prop):
 
     def replay(self, ctx: Ctx, rp: dict):
         lay, _ = read_layout()
-        if rp.get("kind") == "admit":
+        if rp.get("kind") == "timed":
+            v = oracle_timed(lay, rp["timed"], run_timed_impl(lay, rp["timed"])[2])
+        elif rp.get("kind") == "admit":
             v = oracle_admit(lay, rp["name"], rp["wg"], admit_impl(rp["name"], rp["wg"]))
         elif rp.get("kind") == "client":
             v = oracle_client(lay, rp["client"], run_client_impl(lay, rp["client"])[2])
